@@ -45,6 +45,10 @@ type scriptPolicy struct {
 	mu    sync.Mutex
 	hosts map[string]*gocql.HostInfo
 	order []string
+	ups   map[string]int // HostUp notifications per host (the session's handleNodeConnected has run)
+	// mark, if set, is called from SelectedHost.Mark: the executor calls it after every attempt, before it
+	// consults the retry policy — the point at which the scripted environment changes are made
+	mark func(error)
 }
 
 func (p *scriptPolicy) AddHost(h *gocql.HostInfo) {
@@ -52,8 +56,26 @@ func (p *scriptPolicy) AddHost(h *gocql.HostInfo) {
 	p.hosts[h.ConnectAddress().String()] = h
 	p.mu.Unlock()
 }
-func (p *scriptPolicy) RemoveHost(h *gocql.HostInfo)              {}
-func (p *scriptPolicy) HostUp(h *gocql.HostInfo)                  { p.AddHost(h) }
+func (p *scriptPolicy) RemoveHost(h *gocql.HostInfo) {}
+func (p *scriptPolicy) HostUp(h *gocql.HostInfo) {
+	p.AddHost(h)
+	p.mu.Lock()
+	if p.ups == nil {
+		p.ups = map[string]int{}
+	}
+	p.ups[h.ConnectAddress().String()]++
+	p.mu.Unlock()
+}
+func (p *scriptPolicy) upCount(ip string) int {
+	p.mu.Lock()
+	defer p.mu.Unlock()
+	return p.ups[ip]
+}
+func (p *scriptPolicy) host(ip string) *gocql.HostInfo {
+	p.mu.Lock()
+	defer p.mu.Unlock()
+	return p.hosts[ip]
+}
 func (p *scriptPolicy) HostDown(h *gocql.HostInfo)                {}
 func (p *scriptPolicy) SetPartitioner(string)                     {}
 func (p *scriptPolicy) KeyspaceChanged(gocql.KeyspaceUpdateEvent) {}
@@ -62,17 +84,34 @@ func (p *scriptPolicy) IsLocal(*gocql.HostInfo) bool              { return true 
 
 // lenient is a ConvictionPolicy (public interface) that does not convict the hosts in `spare`: such a host stays
 // "up" although every dial fails, so its pool exists but has no connection.
-type lenient struct{ spare map[string]bool }
+type lenient struct {
+	mu    sync.Mutex
+	spare map[string]bool
+}
 
 func (l *lenient) AddFailure(_ error, h *gocql.HostInfo) bool {
+	l.mu.Lock()
+	defer l.mu.Unlock()
 	return !l.spare[h.ConnectAddress().String()]
+}
+func (l *lenient) setSpare(ip string) {
+	l.mu.Lock()
+	l.spare[ip] = true
+	l.mu.Unlock()
 }
 func (l *lenient) Reset(*gocql.HostInfo) {}
 
-type sel struct{ h *gocql.HostInfo }
+type sel struct {
+	h *gocql.HostInfo
+	p *scriptPolicy
+}
 
 func (s sel) Info() *gocql.HostInfo { return s.h }
-func (s sel) Mark(error)            {}
+func (s sel) Mark(err error) {
+	if s.p.mark != nil {
+		s.p.mark(err)
+	}
+}
 
 func (p *scriptPolicy) Pick(gocql.ExecutableQuery) gocql.NextHost {
 	i := 0
@@ -83,10 +122,10 @@ func (p *scriptPolicy) Pick(gocql.ExecutableQuery) gocql.NextHost {
 			h := p.hosts[p.order[i]]
 			i++
 			if h != nil {
-				return sel{h}
+				return sel{h, p}
 			}
 			// not a host of the cluster: a SelectedHost without HostInfo (the model line lists it as up=0)
-			return sel{nil}
+			return sel{nil, p}
 		}
 		return nil
 	}
@@ -151,6 +190,18 @@ func errKind(err error) int {
 	return 9
 }
 
+// errIdent: which request's error this is (the scripted servers end the error message with #<request number>);
+// "?" for an error made by the driver itself (no answer, connection closed).
+func errIdent(err error) string {
+	var re gocql.RequestError
+	if errors.As(err, &re) {
+		if m := re.Message(); strings.LastIndex(m, "#") >= 0 {
+			return m[strings.LastIndex(m, "#")+1:]
+		}
+	}
+	return "?"
+}
+
 // resTok renders an attempt's error the way the model renders a Res.
 func resTok(err error) string {
 	switch {
@@ -164,7 +215,25 @@ func resTok(err error) string {
 
 // fateBody: the server's answer for a fate token e<kind>[variant]; variants of one kind differ in fields the
 // built-in policies must treat alike.
-func fateBody(f string) (byte, []byte, bool) {
+func fateBody(f string) (byte, []byte, bool) { return fateBodyMsg(f, "") }
+
+// fateBodyMsg: the same with `suffix` appended to the error message (the harness puts the request number there:
+// which attempt's error the caller finally holds is then visible in the error itself).
+func fateBodyMsg(f string, suffix string) (byte, []byte, bool) {
+	op, body, ok := fateBody0(f)
+	if !ok || suffix == "" || len(body) < 6 {
+		return op, body, ok
+	}
+	// ERROR body = [int code][string message]…: rewrite the message
+	n := int(body[4])<<8 | int(body[5])
+	msg := string(body[6:6+n]) + suffix
+	out := append([]byte{}, body[:4]...)
+	out = append(out, byte(len(msg)>>8), byte(len(msg)))
+	out = append(out, msg...)
+	return op, append(out, body[6+n:]...), true
+}
+
+func fateBody0(f string) (byte, []byte, bool) {
 	wt := func(recv int, typ string) (byte, []byte, bool) {
 		return memcluster.OpError, memcluster.ErrorBody(memcluster.ErrWriteTO, "wt", memcluster.WriteTimeoutExtra(1, recv, 2, typ)), true
 	}
@@ -294,6 +363,46 @@ type scenario struct {
 	// the HostFilter yet offered by the policy (up, no pool); 0:0 the policy offers a SelectedHost without HostInfo
 	hosts    []string
 	outcomes []string // o | l | e<k>[variant] | e10
+	// environment script: <when><act><host id>; when = i (before the first execution) or the number of the request
+	// after whose attempt (in SelectedHost.Mark, i.e. before the retry decision) it happens; act = d host marked DOWN,
+	// u marked UP, r pool removed from the session's pool map, c pool closed, k the node's connections are cut and
+	// it refuses new ones (pool left without a connection), a pool re-created and connected (the session marks the
+	// host UP). Only on hosts the session knows (id:1:…); a only on id:1:1.
+	env []string
+}
+
+type envTok struct {
+	init  bool
+	after int
+	act   byte
+	host  int
+}
+
+func parseEnvTok(t string) (envTok, bool) {
+	var e envTok
+	i := 0
+	if strings.HasPrefix(t, "i") {
+		e.init, i = true, 1
+	} else {
+		for i < len(t) && t[i] >= '0' && t[i] <= '9' {
+			i++
+		}
+		if i == 0 {
+			return e, false
+		}
+		fmt.Sscan(t[:i], &e.after)
+	}
+	if i >= len(t)-1 {
+		return e, false
+	}
+	e.act = t[i]
+	for _, c := range t[i+1:] {
+		if c < '0' || c > '9' {
+			return e, false
+		}
+	}
+	fmt.Sscan(t[i+1:], &e.host)
+	return e, strings.IndexByte("durcka", e.act) >= 0
 }
 
 func (d scenario) op() string {
@@ -304,13 +413,17 @@ func (d scenario) op() string {
 	if len(d.outcomes) > 0 {
 		o = strings.Join(d.outcomes, ",")
 	}
-	return fmt.Sprintf("ex %s %s %s %s %s %s %s %s %d %s %d %s %s", d.kind, d.ctor, d.policy, d.polAt, d.obs, d.idem, d.sp, d.ctx,
-		d.cons, d.api, d.reps, h, o)
+	e := "-"
+	if len(d.env) > 0 {
+		e = strings.Join(d.env, ",")
+	}
+	return fmt.Sprintf("ex %s %s %s %s %s %s %s %s %d %s %d %s %s %s", d.kind, d.ctor, d.policy, d.polAt, d.obs, d.idem, d.sp, d.ctx,
+		d.cons, d.api, d.reps, h, o, e)
 }
 
 func parseEx(op string) (scenario, bool) {
 	w := strings.Fields(op)
-	if len(w) != 14 {
+	if len(w) != 14 && len(w) != 15 {
 		return scenario{}, false
 	}
 	d := scenario{kind: w[1], ctor: w[2], policy: w[3], polAt: w[4], obs: w[5], idem: w[6], sp: w[7], ctx: w[8], api: w[10]}
@@ -321,6 +434,14 @@ func parseEx(op string) (scenario, bool) {
 	}
 	if w[13] != "-" {
 		d.outcomes = strings.Split(w[13], ",")
+	}
+	if len(w) == 15 && w[14] != "-" {
+		d.env = strings.Split(w[14], ",")
+		for _, t := range d.env {
+			if _, ok := parseEnvTok(t); !ok {
+				return scenario{}, false
+			}
+		}
 	}
 	return d, true
 }
@@ -494,12 +615,16 @@ func runEx(d scenario) (answer string) {
 	}()
 	var ips, order, known []string
 	dead, spare, filtered := map[string]bool{}, map[string]bool{}, map[string]bool{}
+	spec := map[string]string{} // ip -> "1:1" | "1:0" | "1:c" | "1:f" of the hosts the session knows
 	for _, h := range d.hosts {
 		p := strings.Split(h, ":")
 		ip := "10.0.0." + p[0]
 		order = append(order, ip)
 		if p[1] != "1" {
 			continue // not a host of the cluster: the policy will offer a SelectedHost whose Info() is nil
+		}
+		if _, dup := spec[ip]; !dup {
+			spec[ip] = p[1] + ":" + p[2]
 		}
 		known = append(known, ip)
 		switch p[2] {
@@ -524,16 +649,26 @@ func runEx(d scenario) (answer string) {
 	cancelCtx := func() {}
 	var sessMu sync.Mutex
 	var theSession *gocql.Session
+	closedByHarness := map[*gocql.Conn]bool{} // fate e10: such a connection stays listed in its pool
 	slow := false
 	for _, f := range d.outcomes {
 		if f == "e8" {
 			slow = true
 		}
 	}
+	refuse := map[string]*int32{} // per node: dials are refused while non-zero
 	for ip, n := range cl.Nodes {
 		ip, n := ip, n
+		flag := new(int32)
+		refuse[ip] = flag
 		if dead[ip] {
-			n.DialHook = func(*memcluster.Node, int) error { return errors.New("memcluster: host unreachable") }
+			*flag = 1
+		}
+		n.DialHook = func(*memcluster.Node, int) error {
+			if atomic.LoadInt32(flag) != 0 {
+				return errors.New("memcluster: host unreachable")
+			}
+			return nil
 		}
 		n.Handle = func(req *memcluster.Request) {
 			k := int(atomic.AddInt64(&reqNo, 1)) - 1
@@ -562,12 +697,15 @@ func runEx(d scenario) (answer string) {
 				if ss != nil {
 					for _, c := range gocql.VerifSessionConns(ss) {
 						if strings.HasPrefix(c.Address(), ip+":") {
+							sessMu.Lock()
+							closedByHarness[c] = true
+							sessMu.Unlock()
 							go c.Close()
 						}
 					}
 				}
 			default:
-				if op, body, ok := fateBody(f); ok {
+				if op, body, ok := fateBodyMsg(f, fmt.Sprintf("#%d", k)); ok {
 					req.Conn.Reply(req.Stream, op, body)
 				}
 			}
@@ -581,7 +719,8 @@ func runEx(d scenario) (answer string) {
 	cfg.ConnectTimeout = 2 * time.Second
 	pol := &scriptPolicy{hosts: map[string]*gocql.HostInfo{}, order: order}
 	cfg.PoolConfig.HostSelectionPolicy = pol
-	cfg.ConvictionPolicy = &lenient{spare: spare}
+	conv := &lenient{spare: spare}
+	cfg.ConvictionPolicy = conv
 	if len(filtered) > 0 {
 		cfg.HostFilter = gocql.HostFilterFunc(func(h *gocql.HostInfo) bool {
 			if filtered[h.ConnectAddress().String()] {
@@ -612,6 +751,104 @@ func runEx(d scenario) (answer string) {
 	sessMu.Unlock()
 	if !sess.WaitConns(s, len(ips)+1, 20*time.Second) {
 		return "fatal:connections not established"
+	}
+	// the session marks a host UP (again) some time after its first connection: wait for that to have happened
+	// for every reachable host before the scenario starts changing host states (event wait, no verdict on it)
+	waitFor := func(what string, cond func() bool) bool {
+		dl := time.Now().Add(watchdog)
+		for !cond() {
+			if time.Now().After(dl) {
+				dumpGoroutines("environment step not completed after " + watchdog.String() + " (" + what + "): " + d.op())
+				return false
+			}
+			time.Sleep(200 * time.Microsecond)
+		}
+		return true
+	}
+	for _, ip := range append(append([]string{}, ips...), anchor) {
+		ip := ip
+		if !waitFor("host up "+ip, func() bool { return pol.upCount(ip) > 0 }) {
+			return "fatal:host never reported up"
+		}
+	}
+	var envToks []envTok
+	for _, t := range d.env {
+		e, _ := parseEnvTok(t)
+		envToks = append(envToks, e)
+	}
+	envFailed := int32(0)
+	applyEnv := func(e envTok) {
+		ip := fmt.Sprintf("10.0.0.%d", e.host)
+		sp, ok := spec[ip]
+		if !ok {
+			return // not a host the session knows: nothing to change
+		}
+		h := pol.host(ip)
+		if h == nil {
+			return
+		}
+		switch e.act {
+		case 'd':
+			gocql.VerifC13SetHostState(h, false)
+		case 'u':
+			gocql.VerifC13SetHostState(h, true)
+		case 'r':
+			gocql.VerifC13RemovePool(s, h)
+		case 'c':
+			gocql.VerifC13ClosePool(s, h)
+		case 'k':
+			// the node goes away: no new connections, the existing ones are reset; the conviction policy spares the
+			// host, so the session keeps it (UP, pool without a connection)
+			conv.setSpare(ip)
+			atomic.StoreInt32(refuse[ip], 1)
+			for _, sc := range cl.Nodes[ip].ServerConns() {
+				sc.Close()
+			}
+			if !waitFor("connections of "+ip+" gone", func() bool {
+				if gocql.VerifC13PoolConns(s, h) <= 0 {
+					return true
+				}
+				sessMu.Lock()
+				defer sessMu.Unlock()
+				for _, c := range gocql.VerifSessionConns(s) {
+					if strings.HasPrefix(c.Address(), ip+":") && !closedByHarness[c] {
+						return false
+					}
+				}
+				return true
+			}) {
+				atomic.StoreInt32(&envFailed, 1)
+			}
+		case 'a':
+			if sp != "1:1" {
+				return
+			}
+			atomic.StoreInt32(refuse[ip], 0)
+			n0 := pol.upCount(ip)
+			gocql.VerifC13RemovePool(s, h)
+			gocql.VerifC13AddPool(s, h) // connects synchronously, then tells the session (asynchronously) that the host is up
+			if !waitFor("host up again "+ip, func() bool { return pol.upCount(ip) > n0 }) {
+				atomic.StoreInt32(&envFailed, 1)
+			}
+		}
+	}
+	for _, e := range envToks {
+		if e.init {
+			applyEnv(e)
+		}
+	}
+	var marked int64 // requests seen at the previous Mark
+	pol.mark = func(error) {
+		cur := atomic.LoadInt64(&reqNo)
+		if cur == marked {
+			return // the attempt did not reach a server (context already done)
+		}
+		marked = cur
+		for _, e := range envToks {
+			if !e.init && int64(e.after) == cur-1 {
+				applyEnv(e)
+			}
+		}
 	}
 	var ctx context.Context
 	ctxErrName := "canceled"
@@ -675,7 +912,7 @@ func runEx(d scenario) (answer string) {
 		case strings.HasPrefix(err.Error(), "crash:"):
 			return err.Error()
 		default:
-			fin = fmt.Sprintf("err%d", errKind(err))
+			fin = fmt.Sprintf("err%d#%s", errKind(err), errIdent(err))
 		}
 		if (fin == "canceled" || fin == "deadline") && fin != ctxErrName {
 			fin += "!" // not the error of the statement's own context
@@ -713,6 +950,9 @@ func runEx(d scenario) (answer string) {
 			}
 		}
 		parts = append(parts, fmt.Sprintf("sent=%s n=%d lat=%s cons=%d obs=%s final=%s", sent, n, lat, st.consistency(), obs, fin))
+	}
+	if atomic.LoadInt32(&envFailed) != 0 {
+		return "fatal:environment step not completed"
 	}
 	return strings.Join(parts, " | ")
 }
@@ -1113,6 +1353,130 @@ func genScenario(r *vh.Rng) scenario {
 	return d
 }
 
+// genEnv adds an environment script to a generated scenario: hosts change state / lose or regain their pool between
+// one attempt and the executor's next look at them. With `focus` the scenario is bent towards the situations in
+// which that matters most: few hosts, a policy that answers Retry (same host) for the failures scripted.
+func genEnv(r *vh.Rng, d *scenario, focus bool) {
+	if focus {
+		nh := 1 + r.Intn(3)
+		d.hosts = nil
+		for j := 1; j <= nh; j++ {
+			st := "1:1"
+			if r.Intn(12) == 0 {
+				st = []string{"1:0", "1:c", "1:f", "0:0"}[r.Intn(4)]
+			}
+			d.hosts = append(d.hosts, fmt.Sprintf("%d:%s", j, st))
+		}
+		retryFates := []string{"e1", "e1b", "e5", "e5b", "e7", "e7b"}
+		switch r.Intn(3) {
+		case 0:
+			lv := make([]string, 1+r.Intn(4))
+			for i := range lv {
+				lv[i] = fmt.Sprint(consCodes[r.Intn(len(consCodes))])
+			}
+			d.policy = "down:" + strings.Join(lv, ".")
+		case 1:
+			tbl := make([]byte, 11)
+			for j := range tbl {
+				tbl[j] = "rrrrnnti"[r.Intn(8)]
+			}
+			d.policy = fmt.Sprintf("custom:%d:%s", 1+r.Intn(5), tbl)
+			retryFates = fateTokens
+		}
+		e10 := len(d.outcomes) > 0 && d.outcomes[len(d.outcomes)-1] == "e10"
+		for j := range d.outcomes {
+			if d.outcomes[j] != "l" && d.outcomes[j] != "e10" && d.outcomes[j] != "e8" && r.Intn(4) != 0 {
+				d.outcomes[j] = retryFates[r.Intn(len(retryFates))]
+			}
+		}
+		if e10 && strings.HasPrefix(d.policy, "custom") {
+			d.outcomes = d.outcomes[:len(d.outcomes)-1] // see genScenario: a lost connection is never followed by a same-host retry
+		}
+	}
+	if len(d.hosts) == 0 {
+		return
+	}
+	span := len(d.outcomes)
+	if span > 4 {
+		span = 4
+	}
+	if span < 1 {
+		span = 1
+	}
+	for j, ne := 0, 1+r.Intn(4); j < ne; j++ {
+		when := fmt.Sprint(r.Intn(span))
+		if r.Intn(6) == 0 {
+			when = "i"
+		}
+		d.env = append(d.env, fmt.Sprintf("%s%c%d", when, "dddurrcckkaa"[r.Intn(12)], 1+r.Intn(len(d.hosts))))
+	}
+	if r.Intn(3) == 0 {
+		// everything goes away at once after one request
+		when := fmt.Sprint(r.Intn(span))
+		act := "drck"[r.Intn(4)]
+		for j := range d.hosts {
+			d.env = append(d.env, fmt.Sprintf("%s%c%d", when, act, j+1))
+		}
+	}
+}
+
+// envGrid: every way a host becomes unusable x every retry decision x 1..3 hosts x where it strikes, after the
+// scripted failures (later requests would succeed) — the same scenarios for every seed and tier.
+func envGrid() []scenario {
+	var out []scenario
+	type pf struct {
+		policy string
+		fates  []string
+	}
+	kinds := []string{"q", "bl", "bu", "bc"}
+	n := 0
+	for _, act := range "drck" {
+		back := "a"
+		if act == 'd' {
+			back = "u"
+		}
+		for _, x := range []pf{
+			{"down:2.1", []string{"e9", "e7"}},          // next host, then Retry
+			{"down:6.1", []string{"e7b"}},               // Retry after the only attempt
+			{"down:3.2.1", []string{"e1", "e5", "e9c"}}, // Retry, Retry, next host
+			{"custom:4:rrrrrrrrrrr", []string{"e9", "e4"}},
+			{"custom:4:nnnnnnnrnnn", []string{"e9b", "e7"}},
+			{"simple:3", []string{"e9", "e2"}},
+			{"exp:2", []string{"e9", "e9b"}},
+			{"custom:4:ttttttttttt", []string{"e9"}},
+			{"custom:4:iiiiiiiiiii", []string{"e3"}},
+			{"none", []string{"e9"}},
+		} {
+			for nh := 1; nh <= 3; nh++ {
+				last := len(x.fates) - 1
+				var envs [][]string
+				var all, others []string
+				for h := 1; h <= nh; h++ {
+					all = append(all, fmt.Sprintf("%d%c%d", last, act, h))
+					if h > 1 {
+						others = append(others, fmt.Sprintf("0%c%d", act, h))
+					}
+				}
+				envs = append(envs, all)                                                                       // nothing usable is left
+				envs = append(envs, []string{fmt.Sprintf("%d%c1", last, act)})                                 // the first host goes
+				envs = append(envs, []string{fmt.Sprintf("%d%c%d", last, act, nh)})                            // the last host goes
+				envs = append(envs, append([]string{fmt.Sprintf("i%c1", act), "0" + back + "1"}, others...))   // gone at first, back later: no way back
+				envs = append(envs, append(append([]string{}, all...), fmt.Sprintf("%d%s%d", last, back, nh))) // gone and back at once
+				for _, env := range envs {
+					d := scenario{kind: kinds[n%4], ctor: "s", policy: x.policy, polAt: []string{"q", "s"}[n/4%2], obs: []string{"-", "q", "s"}[n%3],
+						idem: "1", sp: "-", ctx: "-", cons: 4, api: "e", reps: 1 + n/2%2, outcomes: x.fates, env: env}
+					for h := 1; h <= nh; h++ {
+						d.hosts = append(d.hosts, fmt.Sprintf("%d:1:1", h))
+					}
+					out = append(out, d)
+					n++
+				}
+			}
+		}
+	}
+	return out
+}
+
 // budgetGrid: every statement kind x observer placement x policy placement x policy family, with more usable hosts
 // and more consecutive failures than any budget allows — the same scenarios for every seed and tier.
 func budgetGrid() []scenario {
@@ -1160,9 +1524,14 @@ func main() {
 	if tier == "thorough" {
 		runs = 24000
 	}
-	scen := budgetGrid()
+	scen := append(budgetGrid(), envGrid()...)
 	for i := 0; i < runs; i++ {
-		scen = append(scen, genScenario(r))
+		d := genScenario(r)
+		// a third of the scenarios run in a changing environment, half of those bent towards same-host retries
+		if x := r.Intn(6); x < 2 {
+			genEnv(r, &d, x == 0)
+		}
+		scen = append(scen, d)
 	}
 	results := make([]string, len(scen))
 	var wgr sync.WaitGroup
@@ -1191,6 +1560,9 @@ func main() {
 			cls += "/unobserved"
 		} else {
 			cls += "/observed"
+		}
+		if len(d.env) > 0 {
+			cls += "/env"
 		}
 		out.Case(d.op(), results[i], cls, len(d.hosts) > 0)
 	}
